@@ -128,7 +128,23 @@ let rec int_of_nat = function O -> 0 | S n -> 1 + int_of_nat n
 let dims shape = let (((((a, b), c), d), e), f) = shape in
   (int_of_nat a, int_of_nat b, int_of_nat c, int_of_nat d, int_of_nat e, int_of_nat f)
 
-let kg seed = keygen shake256 (of_hex seed)
+(* keygen and enc are pure functions of their seeds: memoised, many cases share a key pair / ciphertext *)
+let kg_tbl : (string, _) Hashtbl.t = Hashtbl.create 64
+let kg seed =
+  match Hashtbl.find_opt kg_tbl seed with
+  | Some r -> r
+  | None ->
+      let r = keygen shake256 (of_hex seed) in
+      if Hashtbl.length kg_tbl > 256 then Hashtbl.reset kg_tbl;
+      Hashtbl.add kg_tbl seed r; r
+let enc_tbl : (string * string, _) Hashtbl.t = Hashtbl.create 64
+let enc_memo kseed pk eseed =
+  match Hashtbl.find_opt enc_tbl (kseed, eseed) with
+  | Some r -> r
+  | None ->
+      let r = enc shake256 sha3_256 pk (of_hex eseed) in
+      if Hashtbl.length enc_tbl > 256 then Hashtbl.reset enc_tbl;
+      Hashtbl.add enc_tbl (kseed, eseed) r; r
 let show_ct ((bg, bga_m) : ZZ.t list list * ZZ.t list list) = mvals bg ^ " " ^ mvals bga_m
 let show_dec = function
   | None -> "PANIC"
@@ -205,7 +221,7 @@ let run id op a =
          Printf.sprintf "%s %s %s %s" (to_hex key) (to_hex seed) (to_hex pkseed) (mvals ga))
   | "enc" ->
       (match kg (n 0) with None -> "PANIC" | Some (_, pk) ->
-         (match enc shake256 sha3_256 pk (of_hex (n 1)) with None -> "PANIC" | Some (k, ct) ->
+         (match enc_memo (n 0) pk (n 1) with None -> "PANIC" | Some (k, ct) ->
             Printf.sprintf "%s %s" (to_hex k) (show_ct ct)))
   | "encpk" ->
       let seed = of_hex (n 0) in
@@ -214,14 +230,14 @@ let run id op a =
          Printf.sprintf "%s %s" (to_hex k) (show_ct ct))
   | "kem" ->
       (match kg (n 0) with None -> "PANIC" | Some (sk, pk) ->
-         (match enc shake256 sha3_256 pk (of_hex (n 1)) with None -> "PANIC" | Some (k, ct) ->
+         (match enc_memo (n 0) pk (n 1) with None -> "PANIC" | Some (k, ct) ->
             (match dec shake256 sha3_256 sk ct with
              | None -> "PANIC"
              | Some None -> "NONE"
              | Some (Some k') -> if eql k k' then "OK " ^ to_hex k' else "MISMATCH " ^ to_hex k')))
   | "tamper" ->
       (match kg (n 0) with None -> "PANIC" | Some (sk, pk) ->
-         (match enc shake256 sha3_256 pk (of_hex (n 1)) with None -> "PANIC" | Some (_, ct) ->
+         (match enc_memo (n 0) pk (n 1) with None -> "PANIC" | Some (_, ct) ->
             (match array_of_ct ct with None -> "PANIC" | Some arr ->
                let arr = Array.of_list arr in
                let cnt = int_of_string (n 2) in
@@ -234,7 +250,7 @@ let run id op a =
   | "decother" ->
       (match kg (n 0), kg (n 1) with
        | Some (_, pk1), Some (sk2, _) ->
-           (match enc shake256 sha3_256 pk1 (of_hex (n 2)) with None -> "PANIC" | Some (_, ct) ->
+           (match enc_memo (n 0) pk1 (n 2) with None -> "PANIC" | Some (_, ct) ->
               show_dec (dec shake256 sha3_256 sk2 ct))
        | _ -> "PANIC")
   | "decraw" ->
@@ -247,7 +263,7 @@ let run id op a =
             if eql v w then vals w else "SPECDIFF array -> ciphertext -> array is not the identity"))
   | "ctser" ->
       (match kg (n 0) with None -> "PANIC" | Some (_, pk) ->
-         (match enc shake256 sha3_256 pk (of_hex (n 1)) with None -> "PANIC" | Some (_, ct) ->
+         (match enc_memo (n 0) pk (n 1) with None -> "PANIC" | Some (_, ct) ->
             (match array_of_ct ct with None -> "PANIC" | Some arr ->
                (match ct_of_array arr with
                 | Some ct' when ct_eqb ct ct' -> "1 " ^ to_hex (List.concat_map le_bytes arr)
